@@ -141,6 +141,24 @@ def tlc_trace(module, cfg, trace_path, timeout=1800, extra_env=None):
                 violations=viol, drifts=drifts, states=int(gen.group(2)), raw=out if notc else "")
 
 
+def split_runs(path, shards, wd, tag):
+    """Splits a trace at reset records into `shards` files of whole runs; returns [(path, first_index)]."""
+    lines = open(path).read().splitlines()
+    starts = [i for i, l in enumerate(lines) if '"t":"reset"' in l]
+    if not starts:
+        return []
+    per = max(1, (len(starts) + shards - 1) // shards)
+    out = []
+    for k in range(0, len(starts), per):
+        a = starts[k]
+        b = starts[k + per] if k + per < len(starts) else len(lines)
+        p = os.path.join(wd, f"{tag}-shard{k // per}.ndjson")
+        with open(p, "w") as f:
+            f.write("\n".join(lines[a:b]) + "\n")
+        out.append((p, a))
+    return out
+
+
 def tlc_behaviours(module, cfg, out_path, workers=8, timeout=1800, simulate=None, seed=1, heap="8g"):
     """Runs TLC on a configuration whose invariant prints <<"REPLAY", json>> lines (exhaustively, or with
     simulate=(num, depth) by random simulation) and returns the printed behaviours (JSON text of action
